@@ -684,6 +684,18 @@ def formatResults (k n : Nat) (rs : List ServerResult) : CheckSummary :=
     countCorrupt := (rs.map (fun r => r.corrupt.eraseDups.length)).sum,
     countIncompatible := (rs.map (fun r => r.incompatible.eraseDups.length)).sum }
 
+/-- `Checker._check_server_shares(s)` (check WITHOUT verification): whatever share numbers the server's `get_buckets`
+    answer lists are taken as good, nothing is ever classified corrupt or incompatible; a failing / disconnected
+    server (`none`) contributes nothing and is marked as not responding -/
+def checkServerShares (server : Nat) (answer : Option (List Nat)) : ServerResult :=
+  match answer with
+  | some buckets => { server := server, verified := buckets, corrupt := [], incompatible := [], responded := true }
+  | none => { server := server, verified := [], corrupt := [], incompatible := [], responded := false }
+
+/-- `Checker.start` with verify=False followed by `_format_results` -/
+def checkNoVerify (k n : Nat) (answers : List (Nat × Option (List Nat))) : CheckSummary :=
+  formatResults k n (answers.map (fun a => checkServerShares a.1 a.2))
+
 /-- `corruptshare_locators` / `incompatibleshare_locators` of `_format_results`: (server, sharenum) for every share a
     server's result set lists as corrupt / incompatible, in result order -/
 def corruptLocators (rs : List ServerResult) : List (Nat × Nat) :=
